@@ -206,7 +206,11 @@ static void on_sigabrt(int)
 // A library call that never returns is a violation of whatever property the case belongs to (the operation does not
 // complete), not an inconclusive run: every case gets a CPU-time budget far above what any generated case needs
 // (the slowest legitimate ones, 2^30 callback calls or 10^5-element scale runs under ASan, take 10-20 s).
+#ifdef VERIF_FUZZ
+static const int CASE_CPU_SECONDS = 600;      // (coverage + value-profile instrumentation makes the same case several times slower)
+#else
 static const int CASE_CPU_SECONDS = 150;
+#endif
 static void on_vtalrm(int)
 {
     static const char m[] = "VERIF-FAIL clause=liveness.case_timeout msg=the case did not finish within its CPU-time budget: a library call does not return\n";
